@@ -25,9 +25,10 @@ PROPS = {
  ),
  "C02": dict(
   families=[dict(name="suite7", model="val", quick=0, thorough=0),
-            dict(name="d7", model="val", quick=1200, thorough=30000)],
+            dict(name="d7", model="val", quick=1200, thorough=30000),
+            dict(name="ref7", model="val", quick=900, thorough=20000)],
   ignore_keys=["calls"],
-  rule="draft-07 documents (G-val with the draft-07 profile: definitions, dependencies in both forms, items in both forms, additionalItems, $ref with siblings; both $schema spellings), 14 instances each; plus every group of the official draft-07 suite with expected verdicts; non-trivial: >= 3 distinct keywords; distinct by keyword multiset",
+  rule="family ref7: the universes of family ref (root, embedded resources, loader documents with and without canonical ids, chains/diamonds/cycles) read as draft-07 - definitions, fragment-only $id as anchors, $id with an empty fragment, loaded documents without $schema under a draft-07 root; draft-07 documents (G-val with the draft-07 profile: definitions, dependencies in both forms, items in both forms, additionalItems, $ref with siblings; both $schema spellings), 14 instances each; plus every group of the official draft-07 suite with expected verdicts; non-trivial: >= 3 distinct keywords; distinct by keyword multiset",
   trusted_base=["regexp oracle", "encoding/json text layer"],
   assumptions=["the vocabulary is the union the package knows: 2020-12-only keywords inside draft-07 documents are honoured by both the code and the specification function"],
  ),
@@ -147,6 +148,7 @@ PROPS = {
             dict(name="dyn", model="val", quick=400, thorough=10000),
             dict(name="ptr", model="val", quick=500, thorough=10000),
             dict(name="repr", model="val", quick=500, thorough=10000),
+            dict(name="val", model="val", quick=600, thorough=10000),
             dict(name="equal", model="equal", quick=500, thorough=10000),
             dict(name="infer", model="infer", quick=900, thorough=20000)],
   laws=["law_returns", "law_c10"],
